@@ -336,6 +336,10 @@ def match_wildcard(name: Optional[str], wildcard: str) -> bool:
         return name == wildcard[3:]
 
 
+JSON_SIMPLE_ESCAPES = {'"': '"', '\\': '\\', '/': '/', 'b': '\b', 'f': '\f', 'n': '\n', 'r': '\r', 't': '\t'}
+JSON_ESCAPES_PATTERN = re.compile(r'\\(["\\/bfnrt])|' + Patterns.unicode_escape.pattern)
+
+
 def escape_json_string(s: str, escaped: bool = False) -> str:
     if escaped:
         s = s.replace('\\"', '"')
@@ -357,20 +361,14 @@ def escape_json_string(s: str, escaped: bool = False) -> str:
 
 def unescape_json_string(s: str) -> str:
 
-    def unicode_escape_callback(match: re.Match[str]) -> str:
-        group = match.group(1) or match.group(2)
+    def escape_callback(match: re.Match[str]) -> str:
+        if match.group(1) is not None:
+            return JSON_SIMPLE_ESCAPES[match.group(1)]
+        group = match.group(2) or match.group(3)
         return chr(int(group.upper(), 16))
 
-    s = s.replace('\\"', '\"').\
-        replace(r'\b', '\b').\
-        replace(r'\r', '\r').\
-        replace(r'\n', '\n').\
-        replace(r'\t', '\t').\
-        replace(r'\f', '\f').\
-        replace(r'\/', '/').\
-        replace('\\\\', '\\')
-
-    return Patterns.unicode_escape.sub(unicode_escape_callback, s)
+    # Process the escapes in a single pass, e.g. '\\\\b' is a backslash followed by 'b'
+    return JSON_ESCAPES_PATTERN.sub(escape_callback, s)
 
 
 def split_function_test(function_test: str) -> list[str]:
